@@ -75,6 +75,16 @@ func preludeFor(usedUF []string) string {
 	return b.String()
 }
 
+// mentionsWf: some term mentions the record-structure predicates wfp/bnd
+func mentionsWf(ts []*Term) bool {
+	for _, n := range usedUFs(ts) {
+		if n == "wfp" || n == "bnd" {
+			return true
+		}
+	}
+	return false
+}
+
 func usedUFs(ts []*Term) []string {
 	seen := map[*Term]bool{}
 	used := map[string]bool{}
@@ -220,6 +230,36 @@ func solve(o *Obligation, dir string, timeout int, keep bool) *SolveResult {
 			file := base + ".lean.smt2"
 			os.WriteFile(file, []byte(aq), 0o644)
 			sp := solverSpec{name: "z3-new-5.1.0+lean", cmd: solvers[0].cmd}
+			go func() {
+				first, txt, d := runSolver(ctx, sp, file, timeout)
+				if first != "unsat" {
+					first = "unknown"
+				}
+				ch <- ans{first, txt, d, sp}
+			}()
+			pending++
+			if !keep {
+				defer os.Remove(file)
+			}
+		}
+	}
+	// nowf variant: a goal that does not speak about record structure (wfp/bnd) is tried without the hypotheses that
+	// do (the wf rule instances drown frame-style goals in instantiations); dropping hypotheses is sound
+	if o.Goal != nil {
+		var kept []*Term
+		droppedWf := 0
+		for _, h := range o.Hyps {
+			if mentionsWf([]*Term{h}) {
+				droppedWf++
+				continue
+			}
+			kept = append(kept, h)
+		}
+		if droppedWf >= 5 {
+			wq, _ := BuildQuery(preludeFor(usedUFs(append(append([]*Term(nil), kept...), o.Goal))), kept, o.Goal, false)
+			file := base + ".nowf.smt2"
+			os.WriteFile(file, []byte(wq), 0o644)
+			sp := solverSpec{name: "z3-new-5.1.0+nowf", cmd: solvers[0].cmd}
 			go func() {
 				first, txt, d := runSolver(ctx, sp, file, timeout)
 				if first != "unsat" {
